@@ -108,7 +108,9 @@ func EndBlocker(ctx sdk.Context, k keeper.Keeper) {
 						sdk.NewAttribute(types.AttributeKeyConsumer, requestContext.Consumer),
 					),
 				})
-				return
+				// no provider can be priced: fall through and skip this batch like any batch
+				// without eligible providers, so that the queue entry is consumed and the
+				// context keeps its schedule (returning here left a stale entry behind)
 			}
 
 			if len(providers) > 0 && len(providers) >= int(requestContext.ResponseThreshold) {
